@@ -89,6 +89,22 @@ func c03Table(w *W, y int) {
 	if len(tbl) != 31 {
 		w.Violatef("names", fmt.Sprintf("%d/table", y), "term table of %d has %d entries", y, len(tbl))
 	}
+	// delta-T, the one input of the instants that the root-at-hook residual cannot see (the hook uses the same value):
+	// the library's own table against the Espenak-Meeus polynomials at four points of the year, where both describe
+	// observations (years up to 2000; measured agreement 3 s, limit 10 s)
+	if y <= 2000 {
+		for q := 0; q < 4; q++ {
+			yy := float64(y) + (float64(q)+0.5)/4
+			dLib := ShouXingUtil.DtT((yy-2000)*365.2425) * 86400
+			dEM := ref.DeltaT(yy)
+			if diff := math.Abs(dLib - dEM); diff > 10 {
+				w.Violatef("delta-t", fmt.Sprintf("%d/q%d", y, q), "delta-T used for %.3f is %.1f s, the Espenak-Meeus value is %.1f s (%.1f s apart: every term instant of that time is off by as much)", yy, dLib, dEM, diff)
+			} else if g, ok := w.R.Extra["max_delta_t_difference_s"].(float64); !ok || diff > g {
+				w.R.Extra["max_delta_t_difference_s"] = diff
+			}
+			w.Eval(1)
+		}
+	}
 	held := append([]float64(nil), jq...)
 	var next []float64
 	if y < maxYear {
